@@ -3,6 +3,8 @@
 Model-based access histories: a case is (file layout, operation list); the
 model is the list of residues obtained by the harness' own parser from the
 same bytes."""
+import os
+
 import numpy as np
 from hypothesis import strategies as st
 
@@ -16,10 +18,12 @@ from gaddlemaps.components import SystemGro
 PROPERTY = "C12"
 LEVEL = "exploration"
 RULE = ("files of 1..60 (quick) / 1..400 (thorough) residues of 1..12 atoms written by the harness; layouts: blocks, "
-        "alternating kinds, same name with different sizes, same name and size with different atom names, neighbours "
+        "alternating kinds, same name with different sizes, same name and size with different atom names, kinds colliding "
+        "in every combination of name / size / atom names in random first-seen order, neighbours "
         "differing only in number or only in name, residue names beginning with a digit, repeated numbers; with / "
         "without velocities; access histories of up to 40 (quick) / 200 operations: index, negative index, slice with "
-        "negative bounds/steps, several live iterators advanced in pieces, out-of-range. Non-trivial = file with >=3 "
+        "negative bounds/steps, several live iterators advanced in pieces, out-of-range; in half of the cases the path "
+        "held another file of equal size and modification time that was read through the library before. Non-trivial = file with >=3 "
         "kind changes and a backward seek after a partial iteration. Distinct = sha1 of the case JSON.")
 ASSUMPTIONS = [
     "files are standard fixed-column .gro files (3 decimals) written by the harness",
@@ -28,7 +32,7 @@ ASSUMPTIONS = [
 ]
 
 LAYOUTS = ["blocks", "alternating", "same-name-sizes", "same-name-atoms", "only-number", "only-name",
-           "digit-names", "random"]
+           "digit-names", "random", "mixed-kinds", "mixed-kinds"]
 
 
 @st.composite
@@ -47,6 +51,12 @@ def file_case(draw, tier):
     elif layout == "same-name-atoms":
         k = int(rng.integers(1, 8))
         kinds = [("LIG", atoms(k, "C")), ("LIG", atoms(k, "N")), ("LIG", atoms(k, "O"))]
+    elif layout == "mixed-kinds":
+        # kinds colliding in every combination of (name, size, atom names), first seen in a random order
+        sizes = [int(v) for v in rng.choice(np.arange(1, 9), size=2, replace=False)]
+        combos = [(nm, sz, tag) for nm in ("LIG", "SOL", "LIG2") for sz in sizes for tag in ("C", "N")]
+        pick = rng.choice(len(combos), size=int(rng.integers(3, 8)), replace=False)
+        kinds = [(combos[i][0], atoms(combos[i][1], combos[i][2])) for i in pick]
     elif layout == "digit-names":
         kinds = [("2A", atoms(int(rng.integers(1, 5)))), ("A", atoms(int(rng.integers(1, 5)))),
                  ("1A", atoms(int(rng.integers(1, 5)))), ("11A", atoms(2))]
@@ -96,7 +106,8 @@ def file_case(draw, tier):
     box = np.round(rng.uniform(1, 50, 3), 5).tolist()
     nops = draw(st.integers(1, 200 if tier == "thorough" else 40))
     ops = draw(st.lists(op_strategy(), min_size=1, max_size=nops))
-    return {"layout": layout, "records": records, "title": title, "box": box, "vel": vel, "ops": ops}
+    return {"layout": layout, "records": records, "title": title, "box": box, "vel": vel, "ops": ops,
+            "prior": draw(st.booleans())}
 
 
 @st.composite
@@ -128,7 +139,18 @@ def residue_records(res):
 def check(case):
     path = env.fresh_path(".gro")
     records = [tuple(r) for r in case["records"]]
+    if case.get("prior"):
+        # the same path held another file of the same size (and modification time) before, and was read through the library
+        other = [tuple(r[:4]) + tuple(-v for v in r[4:]) for r in records[::-1]]
+        other = [(r[0], r[1], r[2], k + 1) + tuple(r[4:]) for k, r in enumerate(other)]
+        indep.write_gro(path, case["title"], other, case["box"][::-1])
+        os.utime(path, (1700000000, 1700000000))
+        old = lib("load", SystemGro, path)
+        lib("iterate", list, old)
+        del old
     indep.write_gro(path, case["title"], records, case["box"])
+    if case.get("prior"):
+        os.utime(path, (1700000000, 1700000000))
     parsed = indep.read_gro(path)
     model = indep.split_residues(parsed["records"])
     n = len(model)
@@ -223,7 +245,8 @@ def check(case):
     changes = sum(1 for a, b in zip(model, model[1:]) if (a[0][1], len(a)) != (b[0][1], len(b)))
     return {"nontrivial": changes >= 3 and backward,
             "classes": ["layout:" + case["layout"], "vel" if case["vel"] else "novel",
-                        "residues:%s" % ("1" if n == 1 else "2-14" if n <= 14 else "15+")],
+                        "residues:%s" % ("1" if n == 1 else "2-14" if n <= 14 else "15+"),
+                        "rewritten-path" if case.get("prior") else "fresh-path"],
             "sample": {"layout": case["layout"], "n_residues": n, "first_records": case["records"][:3], "ops": case["ops"][:12]}}
 
 
